@@ -2705,7 +2705,9 @@ class Matrix:
             elif SVG_TRANSFORM_TRANSLATE_Y == name:
                 self.pre_translate(0, Length(params[0]).value())
             elif SVG_TRANSFORM_SCALE == name:
-                params = map(float, params)
+                params = list(map(float, params))
+                if len(params) > 4:
+                    raise ValueError("scale() takes at most four numbers")
                 self.pre_scale(*params)
             elif SVG_TRANSFORM_SCALE_X == name:
                 self.pre_scale(float(params[0]), 1)
